@@ -1,11 +1,12 @@
 import H3.Model.Goaway
 import H3.Spec.Goaway
 import H3.Lemmas.Goaway
+import H3.Lemmas.GoawayQueue
 import H3.Props.C16
 /-! # C08 — GOAWAY identifiers never grow and draw the accept/reject line exactly
 
 Property theorems only.  Model: `H3.Goaway` (server `shutdown`/`accept`, client `poll_close`
-GOAWAY rules and the `send_request` gate; `StreamId + n` is `H3.StreamId.add`, whose
+GOAWAY rules and the two `send_request` gates — on entry and behind `poll_open_bidi`; `StreamId + n` is `H3.StreamId.add`, whose
 saturation is `C16_streamid_add_saturates`).  Oracle: `H3.Spec.Goaway` (RFC 9114 §5.2,
 §7.2.6 over the observable history).
 
@@ -95,18 +96,35 @@ private theorem step_ok {strict : Bool} {P Q : Nat → Prop} (H : Hyp strict P Q
       · simp only [hf1]
         simp only [Bool.false_eq_true, if_false]
         exact ⟨by simp [valid, okObs], by simpa [pushAll, Hist.push] using hi1, by simp [outcomes, arrivals, e3]⟩
-  | sendRequest =>
+  | sendCall =>
     by_cases hc : s.closing = true
-    · have e : step s .sendRequest = (s, [.remoteClosing]) := by simp [step, sendRequest, hc]
+    · have e : step s .sendCall = (s, [.remoteClosing]) := by simp [step, sendCall, hc]
       rw [e]
       exact ⟨by simp [valid, okObs], by simpa [pushAll, Hist.push] using hi, by simp [outcomes, arrivals]⟩
     · have hc' : s.closing = false := by simpa using hc
-      have e : step s .sendRequest = ({ s with opened := s.opened + 1 }, [.opened (4 * s.opened)]) := by
-        simp [step, sendRequest, hc']
+      have e : step s .sendCall = ({ s with parked := s.parked + 1 }, []) := by
+        simp [step, sendCall, hc']
       rw [e]
-      have hi' : GInv P { s with opened := s.opened + 1 } h :=
+      have hi' : GInv P { s with parked := s.parked + 1 } h :=
         ⟨hi.sent_eq, hi.sent_min, hi.surf_le, hi.largest_ok, hi.incoming_ok⟩
-      exact ⟨by simp [valid, okObs], by simpa [pushAll, Hist.push] using hi', by simp [outcomes, arrivals]⟩
+      exact ⟨by simp [valid], by simpa [pushAll] using hi', by simp [outcomes, arrivals]⟩
+  | sendOpened =>
+    by_cases hp : s.parked = 0
+    · have e : step s .sendOpened = (s, []) := by simp [step, sendOpened, hp]
+      rw [e]
+      exact ⟨by simp [valid], by simpa [pushAll] using hi, by simp [outcomes, arrivals]⟩
+    · have hi' : GInv P { s with parked := s.parked - 1, opened := s.opened + 1 } h :=
+        ⟨hi.sent_eq, hi.sent_min, hi.surf_le, hi.largest_ok, hi.incoming_ok⟩
+      by_cases hc : s.closing = true
+      · have e : step s .sendOpened = ({ s with parked := s.parked - 1, opened := s.opened + 1 },
+            [.unused (4 * s.opened), .remoteClosing]) := by simp [step, sendOpened, hp, hc]
+        rw [e]
+        exact ⟨by simp [valid, okObs], by simpa [pushAll, Hist.push] using hi', by simp [outcomes, arrivals]⟩
+      · have hc' : s.closing = false := by simpa using hc
+        have e : step s .sendOpened = ({ s with parked := s.parked - 1, opened := s.opened + 1 },
+            [.opened (4 * s.opened)]) := by simp [step, sendOpened, hp, hc']
+        rw [e]
+        exact ⟨by simp [valid, okObs], by simpa [pushAll, Hist.push] using hi', by simp [outcomes, arrivals]⟩
   | resolve id =>
     by_cases hc : id ∈ s.ongoing
     · have e : step s (.resolve id) = (s, [.served id]) := by simp [step, hc]
@@ -258,34 +276,123 @@ theorem C08_shutdown_id (L n : Nat) (h4 : L % 4 = 0) (hL : L < 2^62) (hn : n < 2
 GOAWAY of the peer has been processed (C09's case), and — after a *local* `shutdown` — right after
 refusing a stream at or above the identifier sent.  `H3.Goaway.acceptLoop` has both. -/
 
-/-- **`None` only when drained, state by state.**  For every connection state `s` and every queue
-    `q` of streams waiting in the transport: one run of the accept loop answers `None` *exactly*
-    when no request is ongoing at that moment (`ongoing_streams` is empty) and either the first
-    stream waiting is one the filter refuses (local shutdown: its ID is at or above the
-    identifier sent) or nothing waits and a GOAWAY of the peer has been processed.  Such a run
-    shows no request to the application and leaves `ongoing_streams` empty.  In particular a
-    refusal while a request shown earlier is still in progress never ends `accept`. -/
-theorem C08_accept_none_only_when_drained (s : State) (q : List Nat) :
-    (Obs.acceptNone ∈ (acceptLoop s q).2 ↔
-      s.ongoing = [] ∧ ((∃ id rest, q = id :: rest ∧ rejects s.sentClosing id = true) ∨
-                        (q = [] ∧ s.recvClosing.isSome = true))) ∧
-    (Obs.acceptNone ∈ (acceptLoop s q).2 →
-      surfacedIn (acceptLoop s q).2 = [] ∧ (acceptLoop s q).1.ongoing = []) := by
-  refine ⟨acceptLoop_none_iff q s, ?_⟩
+/-- **`None` only when drained and nothing acceptable waits, state by state.**  For every connection
+    state `s`, every queue `q` of streams waiting in the transport and either value of the loop's
+    flag (`refused`: a stream has been refused earlier in this poll): one run of the accept loop
+    answers `None` *exactly* when no request is ongoing at that moment (`ongoing_streams` is empty),
+    **every** stream waiting is one the filter refuses (its ID is at or above the identifier sent —
+    no acceptable stream is left behind a refused one: D-08b), and either a stream is refused in
+    this poll (local shutdown) or a GOAWAY of the peer has been processed.  Such a run shows no
+    request to the application, leaves `ongoing_streams` empty, gives every waiting stream its
+    outcome and leaves the queue empty.  In particular a refusal while a request shown earlier is
+    still in progress never ends `accept`. -/
+theorem C08_accept_none_only_when_drained (refused : Bool) (s : State) (q : List Nat) :
+    (Obs.acceptNone ∈ (acceptLoop refused s q).2 ↔
+      s.ongoing = [] ∧ (∀ id ∈ q, rejects s.sentClosing id = true) ∧
+      (refused = true ∨ q ≠ [] ∨ s.recvClosing.isSome = true)) ∧
+    (Obs.acceptNone ∈ (acceptLoop refused s q).2 →
+      surfacedIn (acceptLoop refused s q).2 = [] ∧ (acceptLoop refused s q).1.ongoing = [] ∧
+      outcomes (acceptLoop refused s q).2 = q ∧ (acceptLoop refused s q).1.incoming = []) := by
+  refine ⟨acceptLoop_none_iff q refused s, ?_⟩
   intro hn
-  have h1 := acceptLoop_none_quiet q s hn
-  have h2 := ((acceptLoop_none_iff q s).mp hn).1
-  refine ⟨h1, ?_⟩
+  have h1 := acceptLoop_none_quiet q refused s hn
+  have h2 := ((acceptLoop_none_iff q refused s).mp hn).1
+  obtain ⟨h3, h4⟩ := acceptLoop_none_empties q refused s hn
+  refine ⟨h1, ?_, h4, h3⟩
   rw [acceptLoop_ongoing, h1, h2]; rfl
 
+/-- **`None` abandons no stream** (D-08b, for every state): when a poll of `accept` answers `None`,
+    every stream that was waiting in the transport at that poll has had its outcome in this very
+    poll, in order, and nothing waits any more.  With `arrivals = outcomes ++ still-queued` of
+    `C08_server_line` this is the oracle's rule `okQueue … acceptNone`: at `None` every stream the peer
+    has opened has been shown to the application or refused. -/
+theorem C08_none_abandons_no_stream (s : State) (hn : Obs.acceptNone ∈ (step s .accept).2) :
+    outcomes (step s .accept).2 = s.incoming ∧ (step s .accept).1.incoming = [] := by
+  simp only [step, accept] at hn ⊢
+  by_cases hf : s.failed = true
+  · simp [hf] at hn
+  · simp only [hf] at hn ⊢
+    simp only [Bool.false_eq_true, if_false] at hn ⊢
+    by_cases hf1 : (procCtlServer s s.ctl).failed = true
+    · simp [hf1] at hn
+    · simp only [hf1] at hn ⊢
+      simp only [Bool.false_eq_true, if_false] at hn ⊢
+      obtain ⟨h3, h4⟩ := acceptLoop_none_empties _ false _ hn
+      exact ⟨by rw [h4]; exact (procCtlServer_fields s.ctl s).2.2.1, h3⟩
+
+/-- **A `shutdown(n)` that answers `Ok` leaves a GOAWAY in force** whose identifier is at most the one
+    the call computed — it is either the one in force before (not larger) or written by this call
+    (the oracle's rule `okQueue … shutdownOk`). -/
+theorem C08_shutdown_ok_has_goaway_in_force (s : State) (n : Nat) (hf : s.failed = false) :
+    Obs.shutdownOk ∈ (step s (.shutdown n)).2 ∧
+    ∃ g, (step s (.shutdown n)).1.sentClosing = some g ∧ g ≤ shutdownId s.largest n ∧
+      (s.sentClosing = some g ∨ Obs.goaway g ∈ (step s (.shutdown n)).2) := by
+  simp only [step, hf, shutdown]
+  simp only [Bool.false_eq_true, if_false]
+  by_cases hk : keepsPrevious s.sentClosing (shutdownId s.largest n) = true
+  · simp only [hk, if_true]
+    cases hs : s.sentClosing with
+    | none => simp [keepsPrevious, hs] at hk
+    | some g =>
+      have : g ≤ shutdownId s.largest n := by simpa [keepsPrevious, hs] using hk
+      exact ⟨by simp, g, rfl, this, Or.inl rfl⟩
+  · simp only [hk]
+    simp only [Bool.false_eq_true, if_false]
+    exact ⟨by simp, _, rfl, Nat.le_refl _, Or.inr (by simp)⟩
+
 -- a refusal with request 0 still in progress does not end `accept`; with nothing in progress it does
-example : (acceptLoop { sentClosing := some 4, largest := some 0, ongoing := [0] } [4, 8]).2 =
+example : (acceptLoop false { sentClosing := some 4, largest := some 0, ongoing := [0] } [4, 8]).2 =
       [.rejected 4, .rejected 8, .acceptPending] ∧
-    (acceptLoop { sentClosing := some 4, largest := some 0, ongoing := [] } [4, 8]).2 =
-      [.rejected 4, .acceptNone] ∧
-    -- an acceptable stream behind a refused one is still served while a request is in progress
-    (acceptLoop { sentClosing := some 12, largest := some 0, ongoing := [0] } [12, 4]).2 =
-      [.rejected 12, .surfaced 4] := by decide
+    (acceptLoop false { sentClosing := some 4, largest := some 0, ongoing := [] } [4, 8]).2 =
+      [.rejected 4, .rejected 8, .acceptNone] ∧
+    -- an acceptable stream behind a refused one is still served while a request is in progress …
+    (acceptLoop false { sentClosing := some 12, largest := some 0, ongoing := [0] } [12, 4]).2 =
+      [.rejected 12, .surfaced 4] ∧
+    -- … and when none is (the witness of D-08b: shutdown(1) announced 4, stream 4 arrives before stream 0)
+    (run {} [.shutdown 1, .arrive 4, .arrive 0, .accept]).2 =
+      [.goaway 4, .shutdownOk, .rejected 4, .surfaced 0] := by decide
+
+/-- **The queue rules over whole histories** (`H3.Spec.Goaway.okQueue`; D-08b).  The judged history
+    of a run (`runJ`) is what the model shows with the peer's `arrived id`, the application's
+    `completed id` and `shutdownCalled n` put in where the events happen.  For every history whose
+    arrivals are distinct request stream IDs (a stream is opened once) and whose `shutdown` counts
+    fit `usize`, every observation passes the queue rules against the history before it:
+
+    * a stream is shown or refused at most once;
+    * `None` is answered only when every stream the peer has opened has been shown or refused, and
+      every request shown is done;
+    * a `shutdown(n)` that answers `Ok` leaves a GOAWAY in force whose identifier is at most
+      `n` requests past the largest one shown (`shutdownBound`), 2^62 − 4 at most. -/
+theorem C08_server_queue (evs : List Ev) (hq : ∀ e ∈ evs, H3.Lemmas.GoawayQueue.QEv e)
+    (hn : (arrivals evs).Nodup) :
+    validQ {} (H3.Lemmas.GoawayQueue.runJ {} evs) = true := by
+  have ha : ∀ l : List Ev, arrivals l = H3.Lemmas.GoawayQueue.arrivalsOf l := by
+    intro l
+    induction l with
+    | nil => rfl
+    | cons e r ih => cases e <;> simp [arrivals, H3.Lemmas.GoawayQueue.arrivalsOf, ih]
+  have hf : H3.Lemmas.GoawayQueue.IdForm := fun L n h4 hL hn => C08_shutdown_id L n h4 hL hn
+  exact H3.Lemmas.GoawayQueue.run_q hf evs {} {} H3.Lemmas.GoawayQueue.qinv_init hq (ha evs ▸ hn)
+    (by intro id _; simp)
+
+-- the witness of D-08b as the judge sees it: the repaired model's history passes, the unrepaired tree's does not
+example : H3.Lemmas.GoawayQueue.runJ {} [.shutdown 1, .arrive 4, .arrive 0, .accept, .complete 0, .accept] =
+      [.shutdownCalled 1, .goaway 4, .shutdownOk, .arrived 4, .arrived 0, .rejected 4, .surfaced 0, .completed 0,
+       .acceptPending] ∧
+    validQ {} [.shutdownCalled 1, .goaway 4, .shutdownOk, .arrived 4, .arrived 0, .rejected 4, .goaway 0, .acceptNone] = false ∧
+    -- `shutdown = Ok` without a GOAWAY, a second outcome, `None` with a request in progress, an identifier above the bound
+    validQ {} [.surfaced 0, .shutdownOk, .acceptNone] = false ∧
+    validQ {} [.goaway 4, .shutdownOk, .surfaced 0, .surfaced 0] = false ∧
+    validQ {} [.surfaced 0, .goaway 4, .shutdownCalled 0, .shutdownOk, .acceptNone] = false ∧
+    validQ {} [.goaway 12, .shutdownCalled 2, .shutdownOk] = false ∧
+    validQ {} [.goaway 8, .shutdownCalled 2, .shutdownOk] = true := by decide
+
+-- … and the hypotheses of `C08_server_queue` are satisfiable by such a history
+example : (∀ e ∈ [Ev.shutdown 1, .arrive 4, .arrive 0, .accept, .complete 0, .accept], H3.Lemmas.GoawayQueue.QEv e) ∧
+    (arrivals [Ev.shutdown 1, .arrive 4, .arrive 0, .accept, .complete 0, .accept]).Nodup := by
+  refine ⟨?_, by decide⟩
+  intro e he; simp at he
+  rcases he with rfl | rfl | rfl | rfl | rfl | rfl <;> simp [H3.Lemmas.GoawayQueue.QEv]
 
 /-- **… and over whole histories.**  In every history (any interleaving of arrivals, `accept`
     polls, `shutdown n`, completions, GOAWAYs of the peer), with *in progress* read off the history
@@ -340,7 +447,8 @@ example : (run {} [.arrive 0, .accept, .shutdown 0, .recvGoaway 0, .accept, .res
 def ClientEv : Ev → Prop
   | .recvGoaway id => id < 2^62
   | .pollClose => True
-  | .sendRequest => True
+  | .sendCall => True
+  | .sendOpened => True
   | _ => False
 
 private theorem client_run (evs : List Ev) : ∀ (s : State) (ps buf : List Nat),
@@ -385,13 +493,22 @@ private theorem client_run (evs : List Ev) : ∀ (s : State) (ps buf : List Nat)
         apply ih _ (ps ++ buf) [] hes (by simp)
         · rw [p1, habs]; simp [clientAfter, List.foldl_append]
         · exact p2
-    | sendRequest =>
+    | sendCall =>
       simp only [feed]
       by_cases hcl : s.closing = true
-      · have hs : (step s .sendRequest).1 = s := by simp [step, sendRequest, hcl]
+      · have hs : (step s .sendCall).1 = s := by simp [step, sendCall, hcl]
         rw [hs]; exact ih s ps buf hes hbuf habs hctl
-      · have hs : (step s .sendRequest).1 = { s with opened := s.opened + 1 } := by
-          simp [step, sendRequest, hcl]
+      · have hs : (step s .sendCall).1 = { s with parked := s.parked + 1 } := by
+          simp [step, sendCall, hcl]
+        rw [hs]; exact ih _ ps buf hes hbuf habs hctl
+    | sendOpened =>
+      simp only [feed]
+      by_cases hp : s.parked = 0
+      · have hs : (step s .sendOpened).1 = s := by simp [step, sendOpened, hp]
+        rw [hs]; exact ih s ps buf hes hbuf habs hctl
+      · have hs : (step s .sendOpened).1 = { s with parked := s.parked - 1, opened := s.opened + 1 } := by
+          simp only [step, sendOpened, hp, if_false]
+          split <;> rfl
         rw [hs]; exact ih _ ps buf hes hbuf habs hctl
     | arrive _ => exact absurd he (by simp [ClientEv])
     | accept => exact absurd he (by simp [ClientEv])
@@ -399,34 +516,53 @@ private theorem client_run (evs : List Ev) : ∀ (s : State) (ps buf : List Nat)
     | complete _ => exact absurd he (by simp [ClientEv])
     | resolve _ => exact absurd he (by simp [ClientEv])
 
-/-- **The client's rules.**  For every sequence of GOAWAY identifiers received, driver polls and
-    `send_request` calls, with `c` the oracle's verdict on the identifiers the driver has been
-    given to process (`processed evs`; `clientStep`: a non-request ID or an ID larger than the
-    one before is H3_ID_ERROR, after which nothing is processed):
+/-- **The client's rules.**  For every sequence of GOAWAY identifiers received, driver polls,
+    `send_request` calls (`sendCall`) and moments at which a waiting call gets its stream
+    (`sendOpened`: at once with stream credit, else when the peer grants it — any time later), with
+    `c` the oracle's verdict on the identifiers the driver has been given to process
+    (`processed evs`; `clientStep`: a non-request ID or an ID larger than the one before is
+    H3_ID_ERROR, after which nothing is processed):
 
     * the connection has failed with H3_ID_ERROR exactly when the oracle says so, and the
       driver's poll reports exactly that;
-    * `send_request` is gated exactly by "a GOAWAY has been accepted": then it returns
-      `RemoteClosing` and changes nothing (no stream is opened), otherwise it opens the next
+    * both gates of `send_request` are exactly "a GOAWAY has been accepted": a call made then
+      returns `RemoteClosing` and changes nothing; a call that gets its stream then — **whenever it
+      was made, also before the GOAWAY** (D-08c) — returns `RemoteClosing`, its stream is left
+      without a byte; otherwise the call waits for its stream / writes the request on the next
       request stream;
-    * once gated, gated for ever: whatever else is received, polled or attempted. -/
+    * once gated, gated for ever: whatever else is received, polled, attempted or granted, no call
+      starts a request (neither a new one nor one that was waiting). -/
 theorem C08_client_rules (evs : List Ev) (hc : ∀ e ∈ evs, ClientEv e) :
     (run {} evs).1.failed = (clientAfter (processed evs)).err ∧
     ((pollClose (run {} evs).1).2 = [.idError] ↔ (pollClose (run {} evs).1).1.failed = true) ∧
     (run {} evs).1.closing = (clientAfter (processed evs)).stopped ∧
     ((clientAfter (processed evs)).stopped = true →
-      step (run {} evs).1 .sendRequest = ((run {} evs).1, [.remoteClosing])) ∧
+      step (run {} evs).1 .sendCall = ((run {} evs).1, [.remoteClosing]) ∧
+      ((run {} evs).1.parked ≠ 0 → step (run {} evs).1 .sendOpened =
+        ({ (run {} evs).1 with parked := (run {} evs).1.parked - 1, opened := (run {} evs).1.opened + 1 },
+          [.unused (4 * (run {} evs).1.opened), .remoteClosing]))) ∧
     ((clientAfter (processed evs)).stopped = false →
-      step (run {} evs).1 .sendRequest =
-        ({ (run {} evs).1 with opened := (run {} evs).1.opened + 1 }, [.opened (4 * (run {} evs).1.opened)])) ∧
+      step (run {} evs).1 .sendCall = ({ (run {} evs).1 with parked := (run {} evs).1.parked + 1 }, []) ∧
+      ((run {} evs).1.parked ≠ 0 → step (run {} evs).1 .sendOpened =
+        ({ (run {} evs).1 with parked := (run {} evs).1.parked - 1, opened := (run {} evs).1.opened + 1 },
+          [.opened (4 * (run {} evs).1.opened)]))) ∧
     ((clientAfter (processed evs)).stopped = true → ∀ more, (∀ e ∈ more, ClientEv e) →
       (clientAfter (processed (evs ++ more))).stopped = true ∧
-      step (run {} (evs ++ more)).1 .sendRequest = ((run {} (evs ++ more)).1, [.remoteClosing])) := by
+      step (run {} (evs ++ more)).1 .sendCall = ((run {} (evs ++ more)).1, [.remoteClosing]) ∧
+      (∀ i, Obs.opened i ∉ (step (run {} (evs ++ more)).1 .sendOpened).2)) := by
   have key : ∀ evs : List Ev, (∀ e ∈ evs, ClientEv e) →
       absClient (run {} evs).1 = clientAfter (processed evs) := fun evs hc =>
     client_run evs {} [] [] hc (by simp) rfl (fun _ => rfl)
-  have gate : ∀ s : State, s.closing = true → step s .sendRequest = (s, [.remoteClosing]) := by
-    intro s h; simp [step, sendRequest, h]
+  have gate : ∀ s : State, s.closing = true → step s .sendCall = (s, [.remoteClosing]) := by
+    intro s h; simp [step, sendCall, h]
+  have gate2 : ∀ s : State, s.closing = true → s.parked ≠ 0 → step s .sendOpened =
+      ({ s with parked := s.parked - 1, opened := s.opened + 1 }, [.unused (4 * s.opened), .remoteClosing]) := by
+    intro s h hp; simp [step, sendOpened, h, hp]
+  have gate2' : ∀ s : State, s.closing = true → ∀ i, Obs.opened i ∉ (step s .sendOpened).2 := by
+    intro s h i
+    by_cases hp : s.parked = 0
+    · simp [step, sendOpened, hp]
+    · rw [gate2 s h hp]; simp
   have hk := key evs hc
   have hfail : (run {} evs).1.failed = (clientAfter (processed evs)).err := by rw [← hk]; rfl
   have hclos : (run {} evs).1.closing = (clientAfter (processed evs)).stopped := by rw [← hk]; rfl
@@ -440,10 +576,12 @@ theorem C08_client_rules (evs : List Ev) (hc : ∀ e ∈ evs, ClientEv e) :
       by_cases hf1 : (procCtlClient s s.ctl).failed = true
       · simp [hf1]
       · simp [hf1]
-  · intro hst; exact gate _ (hclos.trans hst)
+  · intro hst; exact ⟨gate _ (hclos.trans hst), gate2 _ (hclos.trans hst)⟩
   · intro hst
     have : (run {} evs).1.closing = false := hclos.trans hst
-    simp [step, sendRequest, this]
+    refine ⟨by simp [step, sendCall, this], ?_⟩
+    intro hp
+    simp [step, sendOpened, this, hp]
   · intro hst more hm
     have hall : ∀ e ∈ evs ++ more, ClientEv e := by
       intro e he
@@ -457,11 +595,10 @@ theorem C08_client_rules (evs : List Ev) (hc : ∀ e ∈ evs, ClientEv e) :
       rw [this]
       simp only [clientAfter, List.foldl_append]
       exact clientStep_stopped y _ hst
-    refine ⟨hst', gate _ ?_⟩
     have := key (evs ++ more) hall
     have hcl : (run {} (evs ++ more)).1.closing = (clientAfter (processed (evs ++ more))).stopped := by
       rw [← this]; rfl
-    exact hcl.trans hst'
+    exact ⟨hst', gate _ (hcl.trans hst'), gate2' _ (hcl.trans hst')⟩
 
 /-- What the client oracle says, without the fold: no H3_ID_ERROR ⇔ every identifier processed
     is a client-initiated bidirectional stream ID and the sequence never increases; new requests
@@ -524,10 +661,19 @@ example : valid true {} (run {} [.arrive (2^62 - 4), .accept, .shutdown 5]).2 = 
 example : ∀ e ∈ [Ev.arrive 8, .arrive 4, .accept, .shutdown 3], Below 3 e := by
   intro e he; simp at he; rcases he with rfl | rfl | rfl | rfl <;> simp [Below]
 -- client: accepted GOAWAY gates send_request; a larger one afterwards is H3_ID_ERROR, the gate stays
-example : (run {} [.sendRequest, .recvGoaway 8, .pollClose, .sendRequest, .recvGoaway 12, .pollClose, .sendRequest]).2 =
+example : (run {} [.sendCall, .sendOpened, .recvGoaway 8, .pollClose, .sendCall, .recvGoaway 12, .pollClose, .sendCall]).2 =
     [.opened 0, .drvPending, .remoteClosing, .idError, .remoteClosing] := by decide
+-- client (the witness of D-08c): a call waits for stream credit, the GOAWAY is processed, the credit arrives: the call is
+-- refused, stream 0 stays without a byte, and so is every later call; with the credit first the request goes out
+example : (run {} [.sendCall, .recvGoaway 0, .pollClose, .sendOpened, .sendCall]).2 =
+      [.drvPending, .unused 0, .remoteClosing, .remoteClosing] ∧
+    (run {} [.sendCall, .sendOpened, .recvGoaway 0, .pollClose, .sendCall]).2 =
+      [.opened 0, .drvPending, .remoteClosing] ∧
+    (∀ e ∈ [Ev.sendCall, .recvGoaway 0, .pollClose, .sendOpened], ClientEv e) := by
+  refine ⟨by decide, by decide, ?_⟩
+  intro e he; simp at he; rcases he with rfl | rfl | rfl | rfl <;> simp [ClientEv]
 -- client: a server-initiated ID is H3_ID_ERROR and does not gate
-example : (run {} [.recvGoaway 3, .pollClose, .sendRequest]).2 = [.idError, .opened 0] := by decide
+example : (run {} [.recvGoaway 3, .pollClose, .sendCall, .sendOpened]).2 = [.idError, .opened 0] := by decide
 example : clientAfter [8, 4, 4, 0] = ⟨some 0, false, true⟩ ∧ (clientAfter [8, 4, 5]).err = true ∧
     (clientAfter [2]).stopped = false := by decide
 
